@@ -89,7 +89,7 @@ func VerifC05_StepLimit() {
 // the session as failed with a failure event and every run exited, with a nil
 // Go error.
 // hang: violation
-// cover: limit-reached, R=0, R=2, resumed-twice
+// cover: limit-reached, R=0, R=2, resumed-twice, several-runs, limit-reached-across-runs
 func VerifC05_ResumeLimit() {
 	maxR := 3
 	if zzverif.Thorough() {
@@ -97,9 +97,21 @@ func VerifC05_ResumeLimit() {
 	}
 	r := zzverif.Choice("max-resumes", maxR+1)
 	sa := verifNewAssets()
-	// a wait node whose every exit may lead back to itself or to a second wait node
-	specs := []verifNodeSpec{{kind: vkWait, hasDef: true}, {kind: zzverif.Choice("second-node-kind", 2) + vkWait, hasDef: true}}
-	sa.add(verifBuildLazyFlow(0, specs))
+	if zzverif.Choice("waits-spread-over-runs", 2) == 0 {
+		// one run: a wait node whose every exit may lead back to itself or to a second wait node
+		specs := []verifNodeSpec{{kind: vkWait, hasDef: true}, {kind: zzverif.Choice("second-node-kind", 2) + vkWait, hasDef: true}}
+		sa.add(verifBuildLazyFlow(0, specs))
+	} else {
+		// waits spread over many short-lived runs: arbitrary two-node flows that
+		// may enter each other or themselves (terminal or not) around their waits
+		zzverif.Cover("several-runs")
+		zzverif.Assume(r >= 1 && r <= 2)
+		counts := []int{1, 1}
+		if zzverif.Thorough() {
+			counts = []int{2, 1}
+		}
+		verifSymbolicFlows(sa, counts)
+	}
 	verifLazyOutcomes = true
 	eng := verifEngine(5, r)
 	sess, _, err := eng.NewSession(sa, verifManualTrigger(sa, verifContact(sa)))
@@ -120,6 +132,9 @@ func VerifC05_ResumeLimit() {
 		}
 		if limitHit {
 			zzverif.Cover("limit-reached")
+			if len(s.runs) > 1 {
+				zzverif.Cover("limit-reached-across-runs")
+			}
 			if r == 0 {
 				zzverif.Cover("R=0")
 			}
